@@ -167,6 +167,8 @@ class TrimeshPolyhedron(Domain):
         if isinstance(points, Points):
             # the points can carry additional variables (e.g. inside a product)
             points = points[:, list(self.space.keys())].as_tensor
+        if len(points) == 0:  # trimesh can not handle an empty batch
+            return torch.zeros((0, 1), dtype=torch.bool)
         inside = self.mesh.contains(points).reshape(-1, 1)
         return torch.tensor(inside)
 
